@@ -1,3 +1,146 @@
-(* Props/C21.v -- placeholder while the proofs are being built *)
-From Coq Require Import List Bool NArith.
-From MV Require Import Base.Bytes Model.Socks5.
+(* Props/C21.v -- SOCKS5 handshakes are parsed exactly and relay subsequent data.
+   Statements only; each is closed by [exact] of a lemma proved in Proofs/Socks5*.v.
+   [run c segs] is the model of Socks5Proxy fed Start and one DataReceived per element
+   of segs; its result is (phase with the unparsed buffer, observables): bytes sent to
+   the client, server address, OpenConnection issued, client closed, credentials shown
+   to the socks5_auth hook, bytes handed to the child layer.
+   c : cfg quantifies over proxyauth on/off, every hook verdict function, eager/lazy
+   and the OpenConnection result. *)
+From Coq Require Import List Bool Arith NArith.
+From MV Require Import Base.Bytes Model.Socks5 Proofs.Socks5Seg Proofs.Socks5Exact Proofs.Socks5Main Proofs.Socks5Inv.
+Import ListNotations.
+
+(* 1. The outcome does not depend on the segmentation: every splitting of a byte
+      stream (empty segments included) ends in exactly the state of the unsplit stream. *)
+Theorem C21_segmentation : forall (c : cfg) (segs : list bytes),
+  run c segs = run c [concat segs].
+Proof. exact segmentation_independent. Qed.
+Print Assumptions C21_segmentation.
+
+Theorem C21_same_stream_same_outcome : forall (c : cfg) (segs1 segs2 : list bytes),
+  concat segs1 = concat segs2 -> run c segs1 = run c segs2.
+Proof. exact same_stream_same_state. Qed.
+Print Assumptions C21_same_stream_same_outcome.
+
+(* 2. Acceptance decodes exactly: after a completed negotiation (method reply pre, and
+      the RFC 1929 exchange when proxyauth is on), a CONNECT request for an IPv4, IPv6
+      or domain address a and port hi:lo, followed by any trailing bytes, however split,
+      gives: destination (host_of a, hi*256+lo); reply pre ++ 05 00 00 01 00 00 00 00 00 00;
+      not closed; the child receives exactly the trailing bytes (once, in order).
+      If connection_strategy is eager and the connection fails: reply 05 04 .., closed,
+      nothing for the child.  host_of: dotted decimal for IPv4, the 16 raw bytes for
+      IPv6, decode(ascii, replace) of the name for domains. *)
+Theorem C21_accept_exact : forall (c : cfg) (segs : list bytes) (neg pre : bytes) cr (a : addr)
+    (hi lo : byte) (trailing : bytes),
+  negotiated c neg pre cr -> addr_wf a ->
+  concat segs = neg ++ enc_request a hi lo ++ trailing ->
+  run c segs = accepted_state c pre cr a hi lo trailing.
+Proof. exact accept_exact. Qed.
+Print Assumptions C21_accept_exact.
+
+(* 3. Converse: nothing else is accepted.  If the layer relays, or has chosen a
+      destination at all, the stream is negotiation ++ CONNECT request ++ trailing. *)
+Theorem C21_accepted_only_wellformed : forall (c : cfg) (segs : list bytes),
+  reached (run c segs) ->
+  exists neg pre cr a hi lo trailing,
+    negotiated c neg pre cr /\ addr_wf a /\
+    concat segs = neg ++ enc_request a hi lo ++ trailing /\
+    run c segs = accepted_state c pre cr a hi lo trailing.
+Proof. exact accepted_only_wellformed. Qed.
+Print Assumptions C21_accepted_only_wellformed.
+
+(* 4. Rejections: closed, no destination, nothing for the child, and the reply the
+      code supplies (none for a foreign version; method FF; 01 01 for bad credentials;
+      REP 07 for a bad VER/CMD/RSV; REP 08 for an unknown ATYP). *)
+Theorem C21_reject_version : forall (c : cfg) (segs : list bytes) (v n : byte) (rest : bytes),
+  concat segs = v :: n :: rest -> v <> x05 -> run c segs = rejected_state [] None.
+Proof. exact reject_version. Qed.
+Print Assumptions C21_reject_version.
+
+Theorem C21_reject_methods : forall (c : cfg) (segs : list bytes) (methods rest : bytes),
+  concat segs = enc_greeting methods ++ rest -> length methods <= 255 ->
+  ~ In (required c) methods ->
+  run c segs = rejected_state ([x05; xff] ++ REPLY_TAIL) None.
+Proof. exact reject_methods. Qed.
+Print Assumptions C21_reject_methods.
+
+Theorem C21_reject_auth : forall (c : cfg) (segs : list bytes) (methods : bytes) (ver : byte) (u p rest : bytes),
+  proxyauth c = true -> length methods <= 255 -> In x02 methods ->
+  length u <= 255 -> length p <= 255 -> authok c u p = false ->
+  concat segs = enc_greeting methods ++ enc_auth ver u p ++ rest ->
+  run c segs = rejected_state [x05; x02; x01; x01] (Some (u, p)).
+Proof. exact reject_auth. Qed.
+Print Assumptions C21_reject_auth.
+
+Theorem C21_reject_command : forall (c : cfg) (segs : list bytes) (neg pre : bytes) cr
+    (b0 b1 b2 b3 b4 : byte) (rest : bytes),
+  negotiated c neg pre cr -> [b0; b1; b2] <> [x05; x01; x00] ->
+  concat segs = neg ++ b0 :: b1 :: b2 :: b3 :: b4 :: rest ->
+  run c segs = rejected_state (pre ++ [x05; x07] ++ REPLY_TAIL) cr.
+Proof. exact reject_command. Qed.
+Print Assumptions C21_reject_command.
+
+Theorem C21_reject_atyp : forall (c : cfg) (segs : list bytes) (neg pre : bytes) cr (atyp b4 : byte) (rest : bytes),
+  negotiated c neg pre cr -> atyp <> x01 -> atyp <> x03 -> atyp <> x04 ->
+  concat segs = neg ++ x05 :: x01 :: x00 :: atyp :: b4 :: rest ->
+  run c segs = rejected_state (pre ++ [x05; x08] ++ REPLY_TAIL) cr.
+Proof. exact reject_atyp. Qed.
+Print Assumptions C21_reject_atyp.
+
+(* 5. For every input and segmentation: no exception path, nothing reaches the child
+      and no destination exists while the handshake is incomplete, nothing reaches the
+      child once closed. *)
+Theorem C21_state_invariant : forall (c : cfg) (segs : list bytes), wf_state (run c segs).
+Proof. exact run_wf. Qed.
+Print Assumptions C21_state_invariant.
+
+Theorem C21_never_crashes : forall (c : cfg) (segs : list bytes), fst (run c segs) <> Crashed.
+Proof. exact never_crashes. Qed.
+Print Assumptions C21_never_crashes.
+
+(* 6. Text forms.  IPv4: the dotted text determines the four bytes. *)
+Theorem C21_ipv4_text_injective : forall a b c d a' b' c' d' : byte,
+  dotted a b c d = dotted a' b' c' d' -> (a, b, c, d) = (a', b', c', d').
+Proof. exact dotted_injective. Qed.
+Print Assumptions C21_ipv4_text_injective.
+
+(* Domain names.  The full statement -- the destination host is exactly the requested
+   name -- is FALSE of the faithful model: a name with a byte >= 0x80 is accepted and
+   connected to with U+FFFD substituted (finding domain-non-ascii-replaced). *)
+Theorem C21_domain_exact_refuted :
+  exists (segs : list bytes) (name : bytes) (hi lo : byte) (o : obs),
+    length name <= 255 /\
+    concat segs = enc_greeting [x00] ++ enc_request (ADom name) hi lo /\
+    run cfg0 segs = (Relay, o) /\
+    dest o <> Some (HText name, u16be hi lo).
+Proof. exact domain_exact_refuted. Qed.
+Print Assumptions C21_domain_exact_refuted.
+
+Theorem C21_domain_collapse_refuted :
+  exists (n1 n2 : bytes), n1 <> n2 /\
+    run cfg0 [enc_greeting [x00] ++ enc_request (ADom n1) x00 x50]
+    = run cfg0 [enc_greeting [x00] ++ enc_request (ADom n2) x00 x50].
+Proof. exact domain_collapse. Qed.
+Print Assumptions C21_domain_collapse_refuted.
+
+(* The guard all_ascii is exactly the complement of the finding. *)
+Theorem C21_domain_exact_partial : forall (c : cfg) (segs : list bytes) (neg pre : bytes) cr
+    (name : bytes) (hi lo : byte) (trailing : bytes),
+  negotiated c neg pre cr -> length name <= 255 -> all_ascii name ->
+  concat segs = neg ++ enc_request (ADom name) hi lo ++ trailing ->
+  dest (snd (run c segs)) = Some (HText name, u16be hi lo).
+Proof. exact domain_exact_partial. Qed.
+Print Assumptions C21_domain_exact_partial.
+
+(* 7. The hypotheses are satisfiable on a non-trivial instance: proxyauth on, eager,
+      credentials u / pw, CONNECT a.b:443 split in five segments, trailing GET. *)
+Theorem C21_nonvacuous :
+  negotiated cfg_auth (enc_greeting [x00; x02] ++ enc_auth x01 [x75] [x70; x77])
+             [x05; x02; x01; x00] (Some ([x75], [x70; x77]))
+  /\ addr_wf (ADom [x61; x2e; x62])
+  /\ run cfg_auth [[x05; x02; x00]; [x02; x01; x01; x75; x02; x70]; [x77; x05; x01; x00; x03; x03; x61; x2e];
+                   [x62; x01; xbb; x47; x45]; [x54]]
+     = (Relay, mkObs ([x05; x02; x01; x00] ++ REPLY_SUCCESS) (Some (HText [x61; x2e; x62], 443%N)) true false
+                     (Some ([x75], [x70; x77])) [x47; x45; x54]).
+Proof. exact nonvacuous. Qed.
+Print Assumptions C21_nonvacuous.
